@@ -150,7 +150,7 @@ func verifC06TopicSet(n *NSQD) string {
 func VerifC06_PersistCrashPoints() { verifrt.Atomic(verifC06Persist) }
 
 func verifC06Persist() {
-	verifrt.Stub("(*github.com/nsqio/nsq/nsqd.NSQD).Notify", verifNotifyNop)
+	verifrt.StubNative("(*github.com/nsqio/nsq/nsqd.NSQD).Notify", verifNotifyNop)
 	o := verifOpts()
 	n := verifShellNSQD(o)
 	fn := newMetadataFile(o)
@@ -250,7 +250,7 @@ func verifC06Persist() {
 func VerifC06_LoadTolerant() { verifrt.Atomic(verifC06Load) }
 
 func verifC06Load() {
-	verifrt.Stub("(*github.com/nsqio/nsq/nsqd.NSQD).Notify", verifNotifyNop)
+	verifrt.StubNative("(*github.com/nsqio/nsq/nsqd.NSQD).Notify", verifNotifyNop)
 	o := verifOpts()
 	n := verifShellNSQD(o)
 	kind := verifrt.Choice("file", 3)
